@@ -118,6 +118,13 @@ Example c11_in_flight_nonvacuous :
   In (135001%N, EvClosed 3) (trace s) /\ opn s = [] /\ ph s = PCancelled /\ tie s = false.
 Proof. vm_compute. repeat split; auto 20. Qed.
 
+(* a scripted reset during re-subscription: after the back-off the healthy second session stays up *)
+Example c11_scripted_loss_nonvacuous :
+  let s := run [0] true [DConnect 0; DConnect 0; DConnect 0] [(VOkRst, 1000%N, 0%N); (VOk, 700%N, 0%N)]
+               [(1%N, Ensure 1)] 300001%N in
+  opn s = [2] /\ connected s = true /\ ph s = PDoneOk /\ count_dials (trace s) = 2 /\ tie s = false.
+Proof. vm_compute. repeat split; reflexivity. Qed.
+
 Print Assumptions open_le_1.
 Print Assumptions verify_in_flight_only_open.
 Print Assumptions failed_verify_closed.
